@@ -216,8 +216,21 @@ def _decide_local(idx: Index, rep: Report, rule: str, s: own.StoreSite, descr: s
                       reason=f"{descr}; the written object is reachable from {', '.join(which)} (not function-local)")
         return
     bad = []
+    cfg = CFG(f.node)
+    try:
+        sid = cfg.node_for(s.stmt)
+    except AnalysisError:
+        sid = None
     for var in roots.locals_from_alloc:
         for esc in own.escapes_unrebuilt(f, var):
+            # only an escape that can follow the write matters (an early `return x` before any write is fine)
+            if sid is not None:
+                try:
+                    eid = cfg.node_for(esc)
+                except AnalysisError:
+                    eid = None
+                if eid is not None and not cfg.path_exists(sid, eid):
+                    continue
             bad.append((var, esc))
     if bad:
         var, esc = bad[0]
